@@ -426,11 +426,11 @@ func checkC05(c *ev.Ctx) {
 					return
 				}
 				if _, legal := s.Legal[j.cut]; after != "" && !legal && pn == nil {
-			det["what"] = fmt.Sprintf("prefix of %d of %d bytes: %s", j.cut, len(s.B), after)
-			c.Violation("error-then-clean-end:"+s.Format, det)
-			return
-		}
-		rejected := (cerr != nil && cerr != io.EOF) || rerr != nil
+					det["what"] = fmt.Sprintf("prefix of %d of %d bytes: %s", j.cut, len(s.B), after)
+					c.Violation("error-then-clean-end:"+s.Format, det)
+					return
+				}
+				rejected := (cerr != nil && cerr != io.EOF) || rerr != nil
 				if !rejected {
 					det["what"] = fmt.Sprintf("prefix of %d of %d bytes of a %s stream is taken as complete: constructor error %v, read ended cleanly after %d of %d content bytes", j.cut, len(s.B), s.Format, cerr, len(out), len(s.Content))
 					bad = true
